@@ -8,6 +8,7 @@ import (
 	"strconv"
 
 	"verifharness/drv/c03"
+	"verifharness/drv/c04"
 	"verifharness/drv/c05"
 	"verifharness/drv/c06"
 	"verifharness/drv/c07"
@@ -74,6 +75,8 @@ func main() {
 		c07.Run(os.Args[2], os.Args[3])
 	case "c08":
 		c08.Run(os.Args[2], os.Args[3])
+	case "c04":
+		c04.Run(os.Args[2], os.Args[3])
 	case "c19x":
 		a := os.Args
 		c19.Explicit(a[2], a[3], atoi(a[4]), atoi(a[5]), atoi(a[6]), a[7] == "1")
